@@ -555,6 +555,8 @@ Exact(fmt, b) ==
 \* Selection Bits (SYNC 12, header 4, sub-header 8, user data, EDC/ECC), then C2 (294 / 296), then sub-channel
 \* (Q 16 / raw or R-W 96).  par = [est, mcsb (5 bits), c2ei, scsb, tl, lba].  Covered selections: F8h (everything),
 \* 10h (user data), 20h (header), and for Mode 2 form 1 the contiguous runs in M2F1Runs; sector types CD-DA (1), Mode 1 (2), Mode 2 formless (3), Mode 2 form 1 (4).
+M1Runs == {6, 7, 20, 22, 23, 3, 16}      \* header+data; +ecc; sync+header; +data; +ecc; data+ecc; sync
+M2Runs == {6, 20, 22, 16}                \* header+data; sync+header; sync+header+data; sync
 M2F1Runs == {8, 10, 12, 14, 30, 15, 3, 11, 28}     \* sub-header; +data; both headers; +data; sync+headers+data; headers+data+ecc; data+ecc; sub-header+data+ecc; sync+headers
 RcUser(est) == CASE est = 1 -> 2352 [] est = 2 -> 2048 [] est = 3 -> 2336 [] est = 4 -> 2048 [] OTHER -> 0
 RcMain(par) ==      \* sequence of <<name, size>> in wire order
@@ -562,6 +564,17 @@ RcMain(par) ==      \* sequence of <<name, size>> in wire order
     IF est = 1 THEN (IF m \in {31, 2} THEN << <<"data", 2352>> >> ELSE <<>>)
     ELSE IF m = 2 THEN << <<"data", RcUser(est)>> >>
     ELSE IF m = 4 THEN << <<"hdr", 4>> >>
+    ELSE IF est = 2 /\ m \in M1Runs THEN
+         \* Mode 1 has no sub-header: runs of SYNC / header (code 01b) / user data / EDC-ECC (4 + 8 zero + 276 parity)
+         (IF m \div 16 = 1 THEN << <<"sync", 12>> >> ELSE <<>>)
+         \o (IF (m \div 4) % 4 = 1 THEN << <<"hdr", 4>> >> ELSE <<>>)
+         \o (IF (m \div 2) % 2 = 1 THEN << <<"data", 2048>> >> ELSE <<>>)
+         \o (IF m % 2 = 1 THEN << <<"edc", 4>>, <<"zero", 8>>, <<"p-parity", 172>>, <<"q-parity", 104>> >> ELSE <<>>)
+    ELSE IF est = 3 /\ m \in M2Runs THEN
+         \* Mode 2 formless: SYNC / header / 2336 bytes of user data, no EDC-ECC
+         (IF m \div 16 = 1 THEN << <<"sync", 12>> >> ELSE <<>>)
+         \o (IF (m \div 4) % 4 = 1 THEN << <<"hdr", 4>> >> ELSE <<>>)
+         \o (IF (m \div 2) % 2 = 1 THEN << <<"data", 2336>> >> ELSE <<>>)
     ELSE IF est = 4 /\ m \in M2F1Runs THEN
          \* Mode 2 form 1 carries every field, so every contiguous run of them is a legal selection (MMC-6 table 354):
          \* SYNC 10h, HEADER CODES 0Ch (01b header, 10b sub-header, 11b both), USER DATA 02h, EDC & ECC 01h
